@@ -173,6 +173,11 @@ def predicate(op, il, mres, tag):
             return ("Relic.Props.C15.pinned_key_never_stale", "key 1 or an error",
                     "a request pinned to key id 1, overlapping a rotation and %s unpinned lookups, was served: %s" % (f[3], il))
         return None
+    if kind == "cachecancel":
+        if il.split()[1:2] != ["b=1"]:
+            return ("Relic.Props.C15.cache_getKey_atomic_generated", "every other request is answered with the key (as in isolation)",
+                    "a request whose client went away inside the key lookup took %s concurrent requests for the same key with it: %s" % (f[3], il))
+        return None
     if kind == "wpin":
         kv = _kv(il)
         if kv.get("sig") not in ("5101", "!"):
